@@ -76,8 +76,8 @@ impl<const N: usize> Ex<N> {
         out.nontrivial = true;
         out.may_alloc = true;
         let k = st.vals.len();
-        out.argclass = if k < N { 0 } else if k == N { 1 } else { 2 } + 3 * (st.b as u64 % 4);
-        let it = SrcIter::new(&st.vals, [0, 1, 2, 3][st.b % 4]);
+        out.argclass = if k < N { 0 } else if k == N { 1 } else { 2 } + 3 * (st.b as u64 % 5);
+        let it = SrcIter::new(&st.vals, [0, 1, 2, 3, 4][st.b % 5]);
         let made = it.made.clone();
         let r = window(move || it.collect::<Buf<N>>());
         self.allocs += crate::alloc::take_op_allocs();
